@@ -560,7 +560,11 @@ impl TableStore {
         }
         let merged_table = self.save_table(merged_table)?;
         for table in &tables[1..] {
-            self.remove_head(table);
+            // Segments are content-addressed, so the merged table can be identical to
+            // one of the old heads. Don't remove the head we've just recorded.
+            if table.name != merged_table.name {
+                self.remove_head(table);
+            }
         }
         Ok((merged_table, lock))
     }
